@@ -1,12 +1,12 @@
 (* C10/C11 driver: the extracted allocator model on the line protocol of harness/h_fsm.c.
-   argv[1] = code variant "LSYZRHKX": L=1 model of the code after fixes/fsm-lfbk.diff, S=1 after fixes/fsm-strict-dealloc.diff,
+   argv[1] = code variant "LSYZRHKXO": L=1 model of the code after fixes/fsm-lfbk.diff, S=1 after fixes/fsm-strict-dealloc.diff,
    Y=1 after fixes/fsm-syncbmap.diff, Z=1 after fixes/fsm-dealloc-short.diff, R=1 after fixes/fsm-realloc-guard.diff,
    H=1 after fixes/fsm-alloc-overflow.diff, K=1 after fixes/fsm-resize-leak.diff,
-   X=1 after fixes/fsm-realloc-recheck.diff.
+   X=1 after fixes/fsm-realloc-recheck.diff, O=1 after fixes/fsm-solid-rollback.diff.
    `maxoff n` sets opts->exfile.maxoff for the opens that follow (0 = none), as in harness/h_fsm.c. *)
-let arg = (if Array.length Sys.argv > 1 then Sys.argv.(1) else "") ^ "00000000"
+let arg = (if Array.length Sys.argv > 1 then Sys.argv.(1) else "") ^ "000000000"
 let vr mm = { fx_lfbk = (arg.[0] = '1'); fx_strict = (arg.[1] = '1'); fx_sync = (arg.[2] = '1'); fx_short = (arg.[3] = '1');
-              fx_realloc = (arg.[4] = '1'); fx_hint = (arg.[5] = '1'); fx_leak = (arg.[6] = '1'); fx_recheck = (arg.[7] = '1'); mmap_all = mm }
+              fx_realloc = (arg.[4] = '1'); fx_hint = (arg.[5] = '1'); fx_leak = (arg.[6] = '1'); fx_recheck = (arg.[7] = '1'); fx_solid = (arg.[8] = '1'); mmap_all = mm }
 let omaxoff = ref Z0
 let cur : fsm option ref = ref None      (* open file *)
 let left : fsm option ref = ref None     (* what close left on disk *)
